@@ -2,7 +2,11 @@
 # usage: tools/verify_seed.sh <ID> <a|b>   -- confirms a sub-agent's seeded change in a fresh scratch worktree and stores it
 # under /verif/seeded/<ID><x>/ when: tests pass with the change, demo exits 1 with it and 0 without it.
 id=$1; x=$2
-src=/tmp/seed/$id
+root=${SEEDROOT:-/tmp/seed}
+src=$root/$id
+# second wave (SEEDROOT=/tmp/seed2): store variants a,b as c,d
+y=$x
+if [ "$root" = "/tmp/seed2" ]; then y=$(echo $x | tr ab cd); fi
 wt=/tmp/vs/$id$x
 patch=$src/patch_$x.diff; demo=$src/demo_$x.py
 [ -s "$patch" ] && [ -s "$demo" ] || { echo "missing $patch or $demo"; exit 2; }
@@ -13,7 +17,7 @@ cp /repo/src/cutadapt/_version.py $wt/src/cutadapt/ 2>/dev/null
 export PYTHONPATH=$wt/src PYTHONDONTWRITEBYTECODE=1
 build() { (cd $wt/src/cutadapt && /venv/bin/cythonize -i -3 -f _align.pyx qualtrim.pyx _kmer_finder.pyx info.pyx >/dev/null 2>&1); }
 cp $demo $wt/demo.py
-sed -i "s#/tmp/seed/$id#$wt#g" $wt/demo.py
+sed -i "s#$root/$id#$wt#g" $wt/demo.py
 build
 (cd $wt && timeout 300 /venv/bin/python demo.py >/tmp/vs/$id$x.clean.log 2>&1); clean=$?
 (cd $wt && (git apply $patch 2>/dev/null || git apply -3 $patch)) || { echo "$id$x: patch does not apply"; git -C /repo worktree remove --force $wt; exit 1; }
@@ -24,11 +28,11 @@ summary=$(tail -1 /tmp/vs/$id$x.test.log)
 echo "$id$x: demo clean=$clean mutated=$mut tests=$tests ($summary)"
 git -C /repo worktree remove --force $wt
 if [ $clean = 0 ] && [ $mut = 1 ] && [ $tests = 0 ]; then
-  d=/verif/seeded/$id$x; mkdir -p $d
+  d=/verif/seeded/$id$y; mkdir -p $d
   cp $patch $d/patch.diff; cp $demo $d/demo.py
   tail -5 /tmp/vs/$id$x.mut.log > $d/demo_output_with_change.txt
   [ -f $d/meta.json ] || cat > $d/meta.json <<META
-{"property": "$id", "variant": "$x", "needs": "TODO", "confirmed": {"tests_with_change": "$summary", "demo_exit_with_change": $mut, "demo_exit_clean": $clean, "how": "tools/verify_seed.sh $id $x (fresh scratch worktree of /repo HEAD, extensions rebuilt)"}, "detected_by": "TODO"}
+{"property": "$id", "variant": "$y", "needs": "TODO", "confirmed": {"tests_with_change": "$summary", "demo_exit_with_change": $mut, "demo_exit_clean": $clean, "how": "tools/verify_seed.sh $id $x (fresh scratch worktree of /repo HEAD, extensions rebuilt)"}, "detected_by": "TODO"}
 META
   echo "$id$x: KEPT in $d"
 else
